@@ -56,6 +56,7 @@ type Frame struct {
 	loops    []*loopCtx
 	callResults map[string]Val
 	curMode    string // contract mode selected for the call being executed (`at F K mode M`)
+	isoLoops   map[*ssa.BasicBlock][2]int // isolated loop header -> hidden assertion range
 	loopFrames map[*ssa.BasicBlock]*loopFrame
 	loopEntry  map[*ssa.BasicBlock]*State // state on entering a loop (before the head is havocked), for pre(E)
 }
@@ -238,8 +239,44 @@ func (s *Session) runBlocks(fr *Frame, order []*ssa.BasicBlock, st *State) {
 				continue // unreachable
 			}
 		}
+		if fr.top && len(fr.isoLoops) > 0 {
+			s.curSkip = nil
+			s.curTag = 0
+			for h, r := range fr.isoLoops {
+				lb := loopBlocks(h)
+				if lb[b] {
+					s.curSkip = append(s.curSkip, r)
+					if exitsOnlyFromHead(h, lb) && s.curTag == 0 {
+						s.curTag = h.Index + 1
+					}
+				}
+			}
+		}
 		s.runBlock(fr, b, bst)
+		if fr.top {
+			s.curSkip = nil
+			s.curTag = 0
+		}
 	}
+}
+
+// exitsOnlyFromHead: every edge that leaves the loop starts at its header (no break / return inside the body), so
+// the state after the loop is the head state and nothing assumed inside the body matters afterwards.
+func exitsOnlyFromHead(h *ssa.BasicBlock, lb map[*ssa.BasicBlock]bool) bool {
+	for b := range lb {
+		if b == h {
+			continue
+		}
+		if len(b.Succs) == 0 {
+			return false
+		}
+		for _, su := range b.Succs {
+			if !lb[su] {
+				return false
+			}
+		}
+	}
+	return true
 }
 
 const maxUnroll = 8
@@ -528,9 +565,16 @@ func (s *Session) enterBlock(fr *Frame, b *ssa.BasicBlock) *State {
 	for i, inv := range invs {
 		subs := splitClause(inv)
 		for _, sub := range subs {
-			f := s.evalBoolClause(fr, sub, st, b)
+			f := s.evalGoalClauseAt(fr, sub, st, b, -1)
 			s.addObl(&Obligation{Name: fmt.Sprintf("%s/inv#%d.%s:entry", fr.oblPfx, ord, clauseNameSplit(inv, i, sub, len(subs))), Kind: "inv:entry", Func: fr.oblPfx, Src: sub.Src, Guard: st.Reach, Formula: f})
 		}
+	}
+	if fr.top && fr.contract != nil && fr.contract.LoopIso[ord] {
+		if fr.isoLoops == nil {
+			fr.isoLoops = map[*ssa.BasicBlock][2]int{}
+		}
+		fr.isoLoops[b] = [2]int{s.reqEnd, len(s.asserts)}
+		s.note("loop %d of %s is verified in isolation: its body sees the requires, the loop frame and the invariants only", ord, fr.fn.String())
 	}
 	// havoc loop targets
 	lb := loopBlocks(b)
@@ -793,7 +837,7 @@ func (s *Session) setEdge(fr *Frame, from, to *ssa.BasicBlock, cond T, st *State
 				for i, inv := range invs {
 					subs := splitClause(inv)
 					for _, sub := range subs {
-						f := s.evalBoolClause(fr, sub, st, to)
+						f := s.evalGoalClauseAt(fr, sub, st, to, -1)
 						s.addObl(&Obligation{Name: fmt.Sprintf("%s/inv#%d.%s:step", fr.oblPfx, ord, clauseNameSplit(inv, i, sub, len(subs))), Kind: "inv:step", Func: fr.oblPfx, Src: sub.Src, Guard: cond, Formula: f})
 					}
 				}
